@@ -205,11 +205,19 @@ def _flatten(shape, dur, out):
             out.append((c, dur))
 
 
-def c14_from_chords(si: int, di: int) -> bool:
+def c14_from_chords(si: int, di: int, lead: int) -> bool:
     shape = pick(SHAPES, si)
     dur = pick([1, 2, 4], di)
-    t = Track().from_chords(shape, dur)
+    lead = enum(lead, 0, 3)
+    t = Track()
+    if lead == 1:
+        t.add_notes("B", 4)  # a quarter note first: the following items straddle the bar lines
+    elif lead == 2:
+        t.add_notes("B", value.dots(4))
+    t.from_chords(shape, dur)
     flat = []
+    if lead:
+        flat.append(("B", 4 if lead == 1 else value.dots(4)))
     for c in shape:
         if isinstance(c, list):
             _flatten(c, dur * 2, flat)
@@ -219,7 +227,7 @@ def c14_from_chords(si: int, di: int) -> bool:
     # merge split items: consecutive entries with the same chord root that add up to the requested length
     pos = 0
     for c, d in flat:
-        need = Fraction(1, d)
+        need = Fraction(1) / Fraction(d).limit_denominator(10 ** 6)
         got = Fraction(0)
         parts = 0
         while got < need - Fraction(1, 10 ** 9):
@@ -240,7 +248,7 @@ def c14_from_chords(si: int, di: int) -> bool:
     if pos != len(items):
         return False
     tot = sum((Fraction(1) / Fraction(v) for _, v, _ in items), Fraction(0))
-    return abs(tot - sum((Fraction(1, d) for _, d in flat), Fraction(0))) <= Fraction(1, 10 ** 9) and t.test_integrity()
+    return abs(tot - sum((Fraction(1) / Fraction(d).limit_denominator(10 ** 6) for _, d in flat), Fraction(0))) <= Fraction(1, 10 ** 9) and t.test_integrity()
 
 
 def c14_composition(n: int, sel: int, k: int) -> bool:
@@ -290,6 +298,6 @@ def claims(tier):
     for mi in range(5):
         cl.append(Claim("near_full[m%d]" % mi, c14_near_full, params={"mi": mi}, group="c14_near_full", pre=[lambda mi, stop, ai, bi: mi == P["mi"] and 0 <= stop <= 6 and 0 <= ai < len(NEAR) and 0 <= bi < len(NEAR)], timeout=1200 if q else 3000, bounds="meter %d of 5: halving run down to 1/2^(1..7) then two items from %d short values; bar opening and contents against the exact model" % (mi, len(NEAR))))
     cl.append(Claim("probe_history", c14_history, params={"nv": 4, "depth": 3, "mi": 1, "first": 1, "exclude_known": False}, group="c14_history", pre=[], probe_only=True))
-    cl.append(Claim("from_chords", c14_from_chords, pre=[lambda si, di: 0 <= si < len(SHAPES) and 0 <= di < 3], timeout=1200, bounds="%d nested chord-list shapes (depth <= 3, rests) x durations 1, 2, 4" % len(SHAPES)))
+    cl.append(Claim("from_chords", c14_from_chords, pre=[lambda si, di, lead: 0 <= si < len(SHAPES) and 0 <= di < 3 and 0 <= lead <= 2], timeout=1200, bounds="%d nested chord-list shapes (depth <= 3, rests) x durations 1, 2, 4 x lead-in (none, a quarter, a dotted quarter: items then straddle bar lines and are split)" % len(SHAPES)))
     cl.append(Claim("composition", c14_composition, pre=[lambda n, sel, k: 1 <= n <= 3 and 0 <= sel < 3 and 0 <= k < 3], timeout=600, bounds="1..3 tracks, selected track(s), add_note / '+' with Note, string, container; [] len =="))
     return cl
